@@ -469,10 +469,10 @@ static int run_scenario(int from,int to,const char *name,int budget){
         ev_begin("Pages"); ev_i("f",F->id); ev_i("len",F->len); ev_arr_begin("pg");
         { int cur=-1; long k=0,last=-1;     /* per link: running audio packet index and the previous block size, for the samples the packets of a page account for */
         page_t *PT=F->pages0?F->pages0:F->pages; int NP=F->pages0?F->npages0:F->npages;
-        for(int j=0;j<NP&&j<4000;j++){ page_t *q=&PT[j]; char t[200]; long dur=0; char bl[2200]; size_t bo=0; bl[0]=0;
+        for(int j=0;j<NP&&j<4000;j++){ page_t *q=&PT[j]; char t[260]; long dur=0; char bl[2200]; size_t bo=0; bl[0]=0;
           if(q->link>=0){ if(q->link!=cur){ cur=q->link; k=0; last=-1; }
             if(q->off>=F->dataoff[cur]){ link_t *L=F->links[cur]; for(int n=0;n<q->npk&&3+k<L->npk;n++,k++){ long b=L->pk[3+k].W?L->bs1:L->bs0; if(last!=-1) dur+=(last+b)>>2; last=b; if(bo<sizeof bl-16) bo+=snprintf(bl+bo,sizeof bl-bo,"%s%ld",bo?",":"",b); } } }
-          snprintf(t,sizeof t,"{\"o\":%ld,\"n\":%ld,\"l\":%d,\"g\":%lld,\"c\":%d,\"s\":%ld,\"b\":%d,\"k\":%d,\"d\":%ld,\"e\":%d,\"bl\":[",q->off,q->len,q->link,(long long)(q->gp>2000000000LL?2000000000LL:q->gp<-2000000000LL?-2000000000LL:q->gp),q->cont,q->serial,q->bos,q->npk,dur,q->eos);
+          snprintf(t,sizeof t,"{\"o\":%ld,\"n\":%ld,\"l\":%d,\"g\":%lld,\"c\":%d,\"s\":%ld,\"b\":%d,\"k\":%d,\"d\":%ld,\"e\":%d,\"q\":%ld,\"t\":%d,\"bl\":[",q->off,q->len,q->link,(long long)(q->gp>2000000000LL?2000000000LL:q->gp<-2000000000LL?-2000000000LL:q->gp),q->cont,q->serial,q->bos,q->npk,dur,q->eos,q->pageno,q->tail);
           { char *u=malloc(strlen(t)+strlen(bl)+8); sprintf(u,"%s%s]}",t,bl); ev_arr_raw(u); free(u); } } }
         ev_arr_end();
         /* damages done to the file since (the table above is the one before them): the model applies them to the table */
